@@ -121,7 +121,8 @@ def gen_value(w, depth=0):
     if r < 0.73 and depth < 3:
         return ["tuple", [gen_value(w, depth + 1) for _ in range(w.choice([0, 1, 2, 3]))]]
     if r < 0.81 and depth < 3:
-        keys = w.sample(["a", "b", "key with space", "ü", "0", "nested"], w.choice([0, 1, 2, 3]))
+        keys = w.sample(["a", "b", "key with space", "ü", "0", "nested", "%41", "a%2Fb", "50%25", "100%", "q=1&r", "5%Fe"],
+                        w.choice([0, 1, 2, 3]))
         return ["dict", {k: gen_value(w, depth + 1) for k in keys}]
     if r < 0.88:
         k = w.random()
@@ -385,7 +386,20 @@ def gen_case(streams, tier):
                         "as_attribute_object": w.random() < 0.35})
         elif r < 0.40:
             ops.append({"op": "del", "h": w.choice(hs), "name": w.choice(NAMES)})
-        elif r < 0.45:
+        elif r < 0.42:
+            # nested datasets: store one, store it AGAIN under another name from the stored object (a copy, by
+            # the property: both read back what was written), then change one of the two from the inside
+            h_n = w.choice(hs)
+            src, dst = w.sample(NAMES, 2)
+            spec = ["dataset", {n_: gen_value(w, 2) for n_ in w.sample(NAMES, w.randint(1, 3))}]
+            last[src] = spec
+            ops.append({"op": "set", "h": h_n, "name": src, "value": spec, "as_attribute_object": True})
+            ops.append({"op": "alias_set", "h": h_n, "name": dst, "from": src, "in_list": w.random() < 0.3})
+            last[dst] = ["int", 0]
+            for _ in range(w.randint(1, 2)):
+                ops.append({"op": "nested_set", "h": h_n, "name": w.choice([src, src, dst]), "attr": w.choice(NAMES),
+                            "value": gen_value(w, 2), "delete": w.random() < 0.25})
+        elif r < 0.47:
             # in-place edit of a list / dict attribute through the object the dataset hands out
             h_ed = w.choice(hs)
             cands = [n for n in last if last[n][0] in ("list", "dict")]
@@ -406,7 +420,7 @@ def gen_case(streams, tier):
                             "act": w.choice(["setitem", "setitem", "insert", "insert", "append", "delitem", "pop"]
                                             if is_list else ["dict_set", "dict_set", "dict_del"]),
                             "idx": w.getrandbits(12), "value": gen_value(w, 2)})
-        elif r < 0.64:
+        elif r < 0.65:
             ops.append({"op": "write", "h": w.choice(hs), "path": w.choice(PATHS),
                         "mode": w.choice(["w", "w", "a", "a", "w-"]),
                         "subset": w.random() < 0.3, "pick": w.getrandbits(16),
@@ -734,6 +748,53 @@ def _run_case(case, _record=False):
                             del h.attrs[op["name"]]
                     if h.kind == "file":
                         touched.append(h.path)
+                elif k in ("alias_set", "nested_set"):
+                    if op["h"] >= len(handles):
+                        continue
+                    h = handles[op["h"]]
+                    if h.kind == "file":
+                        target_paths = [h.path]
+                    if h.closed or h.tainted or h.ro:
+                        continue
+                    import copy as _copy
+
+                    if k == "alias_set":
+                        cur = h.attrs.get(op["from"])
+                        if not isinstance(cur, _DSModel) or op["name"] in h.attrs:
+                            continue
+                        stored = getattr(h.ds, op["from"])
+                        counters["nested_datasets_stored_again"] = counters.get("nested_datasets_stored_again", 0) + 1
+                        if op["in_list"]:
+                            setattr(h.ds, op["name"], [stored])
+                            h.attrs[op["name"]] = [_copy.deepcopy(cur)]
+                        else:
+                            setattr(h.ds, op["name"], stored)
+                            h.attrs[op["name"]] = _copy.deepcopy(cur)
+                    else:
+                        cur = h.attrs.get(op["name"])
+                        in_list = isinstance(cur, list) and len(cur) == 1 and isinstance(cur[0], _DSModel)
+                        if not (isinstance(cur, _DSModel) or in_list):
+                            continue
+                        nested = getattr(h.ds, op["name"])
+                        nested_model = cur
+                        if in_list:
+                            nested, nested_model = nested[0], cur[0]
+                        new_model = _DSModel(nested_model)
+                        counters["nested_dataset_edits"] = counters.get("nested_dataset_edits", 0) + 1
+                        if op["delete"]:
+                            if not nested_model:
+                                continue
+                            victim = sorted(nested_model)[0]
+                            delattr(nested, victim)
+                            del new_model[victim]
+                        elif op["attr"] in nested_model:
+                            continue  # re-assignment of an existing attribute: covered by "set"
+                        else:
+                            setattr(nested, op["attr"], build_value(op["value"]))
+                            new_model[op["attr"]] = build_model(op["value"])
+                        h.attrs[op["name"]] = [new_model] if in_list else new_model
+                    if h.kind == "file":
+                        touched.append(h.path)
                 elif k == "edit":
                     if op["h"] >= len(handles):
                         continue
@@ -925,7 +986,7 @@ def _run_case(case, _record=False):
                 for h in handles:
                     if h.kind == "file" and h.path in bad:
                         h.tainted = True
-                if k in ("set", "del", "edit", "read", "write", "new") and op.get("h") is not None and op["h"] < len(handles):
+                if k in ("set", "del", "edit", "alias_set", "nested_set", "read", "write", "new") and op.get("h") is not None and op["h"] < len(handles):
                     handles[op["h"]].tainted = True
                 if k == "read" and op.get("src") == "handle" and op["sh"] < len(handles):
                     handles[op["sh"]].tainted = True
